@@ -13,6 +13,7 @@ CHECKS = {
  "C03": ("GitAiCore with the destructive vocabulary (hard reset, path checkout, restore, stash, soft/mixed reset) explored exhaustively; C03_Notes / C03_Blame are evaluated by TLC on every observed state of the replayed behaviours", "DESIGN.md 5 C03"),
  "C04": ("GitAiCore with staging by file and by hunk and partial commits (index, paths): every partition within the bounds is explored; C02_Carried / C01_OnlyAdded / C03_Notes decide that carried lines are listed once, for the right session, in the commit that contains them", "DESIGN.md 5 C04"),
  "C05": ("C05_WellFormed is evaluated by TLC on every observed note after every step of behaviours mixing commit, partial commit, reset, stash and checkout, over six file-name families; the structural flags come from the harness's independent parser of the published note grammar", "DESIGN.md 5 C05"),
+ "C06": ("twin execution against PLAIN git: every selected behaviour (porcelain incl. reset, stash, checkout, restore, mv, partial commits; rebase, cherry-pick, squash, amend; read-only, invalid, plumbing, global-option and alias command lines) runs in one repository through the proxy and in a second one with plain git under the same environment and dates; after every step the harness digests HEAD, refs outside the AI namespaces, index, status, work tree, stash, operation state and the exit status + stdout of every command; TLC evaluates C06_Same on the pair", "DESIGN.md 5 C06"),
  "C08": ("behaviours over every note-writing command of the model (commit, partial commit, amend, rebase, cherry-pick, squash, reset+recommit, stash/pop+commit) are replayed under prompt-storage default / local / notes with a marker sentence and a credential-shaped token in every transcript; after each step every blob reachable from the notes ref and its remote-tracking copies (whole ref history) is scanned; TLC evaluates C08_NoTranscript / C08_Masked on the observed flags", "DESIGN.md 5 C08"),
  "C09": ("the harness records plain git blame --line-porcelain (originating commit, path and line there) next to git-ai blame --json; TLC evaluates C09_Overlay = overlay of the recorded git blame with the observed notes, and C09_Formats (porcelain / line-porcelain / incremental name git's commits; readable and JSON output agree under -L ranges); histories include renames (git mv), amend, rebase, cherry-pick, squash", "DESIGN.md 5 C09"),
  "C19": ("for every commit of every replayed history the harness logs git-ai stats --json and git's numstat; TLC evaluates the identities of C19_Stats, computing added / deleted / accepted lines itself from the recorded trees and observed notes", "DESIGN.md 5 C19"),
